@@ -440,9 +440,17 @@ func (prop) Run(t *testing.T, tape *kernel.Tape, sc kernel.Scenario) *kernel.Res
 	env := kernel.NewEnv(tape)
 	res := &kernel.Result{}
 	var s *scn
-	if sc.Name == "sweep" {
+	switch {
+	case sc.Name == "wire":
+		var ws wireScn
+		_ = json.Unmarshal(sc.Params, &ws)
+		return runWire(t, tape, &ws)
+	case sc.Name == "sweep":
 		s = sweepScenario(sc)
-	} else {
+	default:
+		if tape.Choose(5, "tier") == 4 {
+			return runWire(t, tape, genWire(tape))
+		}
 		s = generate(tape)
 	}
 	res.Summary = s.String()
